@@ -147,6 +147,15 @@ class Instantiator:
             if e[2] is not None:
                 return w.otherwise(self.expr(e[2]))
             return w
+        if k == "map":
+            x = self.expr(e[1])
+            mapping = {}
+            for keys, val in e[2]:
+                ks = tuple(self.expr(q) for q in keys)
+                mapping[ks if len(ks) > 1 else ks[0]] = self.expr(val)
+            if e[3] is not None:
+                return x.map(mapping, default=self.expr(e[3]))
+            return x.map(mapping)
         if k == "cast":
             from translate import json_to_dtype
             x = self.expr(e[1])
